@@ -345,6 +345,10 @@ pub fn check_tagged_and_styles(text: &str, untagged: &CN, stats: &mut Stats) {
 
 /// The same text through real documents in the four node types (when it is a legal plain scalar).
 pub fn check_in_document(text: &str, untagged: &CN, stats: &mut Stats) {
+    if !crate::events::terminates(&format!("- {text}\n")) {
+        stats.cnt("skipped_parse_does_not_terminate", 1);
+        return;
+    }
     let ctx = crate::scalars::FlowCtx { in_flow: false, single_line: true, cont_min: 1, top_level: false };
     if !crate::scalars::plain_ok(text, ctx) {
         return;
